@@ -90,7 +90,15 @@ func frNewEnv(nfiles int, nchanges []int) *frEnvT {
 		// original bytes: arbitrary (nothing on the path may look at them)
 		e.content = append(e.content, append([]byte{'O', byte('0' + i)}, nd.Bytes(fmt.Sprintf("orig%d", i), 2)...))
 		e.newBytes = append(e.newBytes, append([]byte{'N', byte('0' + i)}, nd.Bytes(fmt.Sprintf("new%d", i), 2)...))
-		e.asts = append(e.asts, &ast.File{Package: 1, Name: &ast.Ident{NamePos: 9, Name: "p"}})
+		// the parsed file: a package clause and one import whose one-letter
+		// path is arbitrary (so code that looks at what a file imports, e.g.
+		// "C", is exercised for both answers)
+		ib := nd.Byte(fmt.Sprintf("importpath%d", i))
+		nd.Assume(nd.Or(nd.And(ib >= 'a', ib <= 'z'), nd.And(ib >= 'A', ib <= 'Z')))
+		spec := &ast.ImportSpec{Path: &ast.BasicLit{ValuePos: 20, Kind: token.STRING, Value: "\"" + string([]byte{ib}) + "\""}}
+		e.asts = append(e.asts, &ast.File{Package: 1, Name: &ast.Ident{NamePos: 9, Name: "p"},
+			Decls:   []ast.Decl{&ast.GenDecl{TokPos: 12, Tok: token.IMPORT, Specs: []ast.Spec{spec}}},
+			Imports: []*ast.ImportSpec{spec}})
 		e.match = append(e.match, make([]frTri, total))
 		e.replaceErr = append(e.replaceErr, make([]frTri, total))
 	}
